@@ -45,6 +45,34 @@ CONFIGS = {
     'hold0local': dict(cfg=dict(hold=0), world_env={}),
 }
 
+# a second neighbor, written before the first one (the "reload:remove" deviation cuts the file at the first one's section)
+SECOND = """
+neighbor 127.0.0.3 {
+  router-id 1.2.3.4;
+  local-address 127.0.0.1;
+  local-as 65001;
+  peer-as 65003;
+  hold-time 9;
+  capability { route-refresh enable; }
+  api { processes [ api ]; neighbor-changes; }
+  family { ipv4 unicast; ipv6 unicast; }
+  static { route 10.3.0.0/24 next-hop 1.1.1.1; }
+}
+"""
+CONFIGS['two'] = dict(cfg=dict(hold=9), world_env={}, second=True)
+
+
+def config_text(config_name, **over):
+    conf = CONFIGS[config_name]
+    kw = dict(conf['cfg'])
+    kw.update(over)
+    text = edev.base_config(**kw)
+    if conf.get('second'):
+        head, sep, tail = text.partition('neighbor 127.0.0.2 {')
+        text = head + SECOND + sep + tail
+    return text
+
+
 RELOAD_CHANGED_ROUTES = 'route 10.0.9.0/24 next-hop 1.1.1.1;'
 
 
@@ -53,12 +81,16 @@ class Env(edev.Env):
         super().__init__(w, **kw)
         self.config_name = config_name
         self.fed: dict[int, list] = {}  # socket index -> [(time, what)]
+        if CONFIGS[config_name].get('second'):
+            self.multi = True
+            self.primary = '127.0.0.2'
+            self.remote_by_address = {'127.0.0.3': dict(asn=65003, router_id='9.9.9.8')}
 
     def menu(self):
         out = []
         default = self.default_action()
         name, _, arg = default.partition(':')
-        if name == 'connect-ok':
+        if name == 'connect-ok' and (not self.multi or self.w.sockets[int(arg)].remote[0] == '127.0.0.2'):
             out.append(f'connect-refused:{arg}')
         s = self.current()
         passive = self.config_name == 'passive'
@@ -73,7 +105,7 @@ class Env(edev.Env):
             if name == 'open':
                 out += ['badopen:version', 'badopen:as', 'badopen:hold1', 'badopen:rid0']
             out += ['jump:hold']
-        if self.w.peer() is not None:
+        if self.peer() is not None:
             out += ['incoming:low', 'incoming:high', 'api:teardown', 'reload:same', 'reload:changed', 'reload:remove', 'shutdown']
         elif getattr(self, 'removed', False):
             # the neighbor was taken out of the configuration by an earlier reload: put it back
@@ -128,23 +160,45 @@ class Env(edev.Env):
             r.send(wire.OPEN, bytes(body))
             self.sent_open.add(s.index)
         elif name == 'jump':
-            w.advance(self.hold + 3.5)
+            if self.multi:
+                # only the first neighbor's remote falls silent: the others keep sending their KEEPALIVEs
+                left = self.hold + 3.5
+                while left > 0:
+                    for x in self.live_sockets():
+                        if x is s or x.closed or not x.connected:
+                            continue
+                        types = self.remote(x).received_types()
+                        if wire.OPEN in types and x.index not in self.sent_open:
+                            self.remote(x).send_open()
+                            self.sent_open.add(x.index)
+                            self.injected.append((self.step, f'open:{x.index}', round(w.clock.now - edev.EPOCH, 3), x.index, '?'))
+                        elif wire.KEEPALIVE in types and x.index in self.sent_open:
+                            self.remote(x).send_keepalive()
+                            if x.index not in self.sent_ka:
+                                self.injected.append((self.step, f'keepalive:{x.index}', round(w.clock.now - edev.EPOCH, 3), x.index, '?'))
+                            self.sent_ka.add(x.index)
+                        self.last_remote_tx[x.index] = w.clock.now
+                    w.settle()
+                    w.advance(min(1.0, left))
+                    left -= 1.0
+            else:
+                w.advance(self.hold + 3.5)
         elif name == 'incoming':
             ns = w.incoming()
             rid = '1.2.3.3' if arg == 'low' else '9.9.9.9'
             self.remotes[ns.index] = edev.Remote(w, ns, hold=self.hold, families=((1, 1), (2, 1)), router_id=rid)
         elif name == 'api':
-            w.api_write(b'peer * teardown 2\n')
+            w.api_write(b'peer 127.0.0.2 teardown 2\n' if self.multi else b'peer * teardown 2\n')
         elif name == 'reload':
             if arg == 'changed':
-                w.set_config(edev.base_config(routes=RELOAD_CHANGED_ROUTES, **CONFIGS[self.config_name]['cfg']))
+                w.set_config(config_text(self.config_name, routes=RELOAD_CHANGED_ROUTES))
             elif arg == 'remove':
                 # the same file without its neighbor section
-                text = edev.base_config(**CONFIGS[self.config_name]['cfg'])
+                text = config_text(self.config_name)
                 w.set_config(text[:text.index('neighbor 127.0.0.2 {')])
                 self.removed = True
             elif arg == 'restore':
-                w.set_config(edev.base_config(**CONFIGS[self.config_name]['cfg']))
+                w.set_config(config_text(self.config_name))
                 self.removed = False
             w.signal('RELOAD')
         elif name == 'shutdown':
@@ -161,9 +215,11 @@ class Env(edev.Env):
 def run_one(args):
     (config_name, steps), choices = args
     conf = CONFIGS[config_name]
-    cfg = edev.base_config(**conf['cfg'])
+    cfg = config_text(config_name)
     summary, tr = edev.run(Env, cfg, choices, steps, env_kwargs=dict(config_name=config_name, hold=conf.get('remote_hold', 9), script=SCRIPT), world_env=conf['world_env'])
     viols = monitors(summary)
+    if conf.get('second'):
+        viols += bystander(summary, choices)
     outcome = (tuple(p['fsm'] for p in summary['peers']), tuple(len(s['tx']) for s in summary['sockets']), tuple(s['closed'] for s in summary['sockets']))
     return (viols, outcome, tr.steps, summary['end']), tr.menus
 
@@ -231,7 +287,7 @@ def monitors(sm: dict) -> list:
             if s is None or s['closed']:
                 viols.append((f'connected-state-without-transport:{p["fsm"]}', f'the peer is {p["fsm"]} at the end of the run but owns no open connection (owned={p["owned"]})'))
     # (5) API: up and down alternate
-    up = False
+    up = {}
     for line in sm['api'].splitlines():
         if not line.startswith('{'):
             continue
@@ -242,12 +298,13 @@ def monitors(sm: dict) -> list:
         if ev.get('type') != 'state':
             continue
         state = ev.get('neighbor', {}).get('state')
+        who = ev.get('neighbor', {}).get('address', {}).get('peer')
         if state == 'up':
-            if up:
-                viols.append(('api-up-twice', 'two "up" events without a "down" in between'))
-            up = True
+            if up.get(who):
+                viols.append(('api-up-twice', f'two "up" events of neighbor {who} without a "down" in between'))
+            up[who] = True
         elif state == 'down':
-            up = False
+            up[who] = False
     if sm['loop_exceptions']:
         viols.append(('loop-exception', f'unhandled exception in the event loop: {sm["loop_exceptions"][0][:200]}'))
     # de-duplicate
@@ -260,6 +317,27 @@ def monitors(sm: dict) -> list:
     return out
 
 
+def bystander(sm: dict, choices: dict) -> list:
+    """The second neighbor is never disturbed: whatever happens to the first one, its session comes up once and stays
+    (daemon shutdown excepted)."""
+    if any(v == 'shutdown' for v in choices.values()):
+        return []
+    viols = []
+    mine = [s for s in sm['sockets'] if s.get('remote') == '127.0.0.3']
+    peer = [p for p in sm['peers'] if '127.0.0.3' in p['key']]
+    if not peer:
+        return [('bystander:peer-gone', 'the undisturbed second neighbor is no longer known to the reactor')]
+    if peer[0]['fsm'] != 'ESTABLISHED':
+        viols.append((f'bystander:not-established:{peer[0]["fsm"]}', f'the undisturbed second neighbor ends in {peer[0]["fsm"]}'))
+    closed = [s['index'] for s in mine if s['closed']]
+    if closed or len(mine) > 1:
+        viols.append(('bystander:session-reset', f'the undisturbed second neighbor used {len(mine)} connection(s), closed: {closed}'))
+    for s in mine:
+        if any(m[2] == wire.NOTIFICATION for m in s['tx']):
+            viols.append(('bystander:notification', 'a NOTIFICATION was written to the undisturbed second neighbor'))
+    return viols
+
+
 STEPS = 16
 
 
@@ -267,10 +345,13 @@ def run(ctx: core.Ctx) -> None:
     if os.environ.get('C05_BOUND'):
         plan = [(c, int(os.environ['C05_BOUND'])) for c in CONFIGS]
     elif ctx.tier == 'quick':
-        plan = [('active', 2), ('attempts1', 1), ('gr', 1), ('passive', 1), ('hold0', 1)]
+        plan = [('active', 2), ('attempts1', 1), ('gr', 1), ('passive', 1), ('hold0', 1), ('two', 1)]
     else:
         # every configuration to 2 deviations first, then a third (reduced menu) on the active one
-        plan = [('active', 2), ('attempts1', 2), ('gr', 2), ('passive', 2), ('hold0', 2), ('hold0local', 1), ('active', 3)]
+        plan = [('active', 2), ('attempts1', 2), ('gr', 2), ('passive', 2), ('hold0', 2), ('hold0local', 1), ('two', 2), ('active', 3)]
+    if os.environ.get('C05_ONLY'):
+        plan = [(c, b) for c, b in plan if c in os.environ['C05_ONLY'].split(',')]
+        ctx.cap(f'restricted to configurations {os.environ["C05_ONLY"]} by C05_ONLY')
     bound = max(b for _, b in plan)
     ctx.rule = (f'every execution of the default session script (connect, OPEN/KEEPALIVE exchange, 2 UPDATEs in, 1 API announce, idle) '
                 f'over {STEPS} macro steps with <= k deviations from a state-dependent menu (connect refused, EOF, RST, EPIPE, unexpected message '
